@@ -194,25 +194,6 @@ fn c22_lwwset_insert_wins_at_equal_clock() {
     kani::cover!(c1 == c2 && ins1 != ins2);
 }
 
-/// `vcoll` against std at size <= 2: same results for insert / get / len / remove on a key
-/// universe of two keys (std's B-tree with more operations does not fit the solver's memory).
-#[kani::proof]
-#[kani::unwind(4)]
-fn c22_vcoll_matches_std_btreemap() {
-    let mut s: std::collections::BTreeMap<u8, u8> = std::collections::BTreeMap::new();
-    let mut v: crate::vcoll::BTreeMap<u8, u8> = crate::vcoll::BTreeMap::new();
-    let (k1, k2, x1, x2): (bool, bool, u8, u8) = (kani::any(), kani::any(), kani::any(), kani::any());
-    let (k1, k2) = (k1 as u8, k2 as u8);
-    assert!(s.insert(k1, x1) == v.insert(k1, x1));
-    assert!(s.insert(k2, x2) == v.insert(k2, x2));
-    assert!(s.len() == v.len());
-    assert!(s.get(&0) == v.get(&0) && s.get(&1) == v.get(&1));
-    assert!(s.first_key_value() == v.first_key_value());
-    kani::cover!(k1 == k2);
-    kani::cover!(k1 > k2);
-    std::mem::forget(s);
-}
-
 #[cfg(test)]
 mod replay {
     use super::*;
